@@ -903,3 +903,342 @@ Proof.
     split; [exact Hlt|]. split; [apply Hin; apply nth_In; exact Hlt|]. auto.
   - intros t' E. destruct (Hn t' E) as [-> Hx]. split; [reflexivity|]. intros x Hxin. apply Hx. apply Hin. exact Hxin.
 Qed.
+
+(* ------------------------------------------------------------------------------------- *)
+(* the psl guard is vacuous below 256 stored elements                                    *)
+
+Lemma occupied_count : forall ps v, NoDup ps ->
+  (forall p, In p ps -> p < length v /\ occupied (nth p v empty_slot) = true) ->
+  length ps <= length (pays v).
+Proof.
+  induction ps as [|p ps IH]; intros v Hnd Hall; [simpl; lia|].
+  inversion Hnd as [|? ? Hnin Hnd']; subst.
+  destruct (Hall p (or_introl eq_refl)) as [Hp Hop].
+  pose proof (pays_set_nth v p empty_slot Hp) as Hperm. apply Permutation_length in Hperm.
+  rewrite !app_length in Hperm.
+  assert (E1 : length (pays1 (nth p v empty_slot)) = 1).
+  { unfold occupied in Hop. unfold pays1. destruct (sid (nth p v empty_slot)); [reflexivity|discriminate]. }
+  change (length (pays1 empty_slot)) with 0 in Hperm.
+  specialize (IH (set_nth v p empty_slot) Hnd').
+  assert (length ps <= length (pays (set_nth v p empty_slot))).
+  { apply IH. intros q Hq. destruct (Hall q (or_intror Hq)) as [Hql Hoq].
+    rewrite length_set_nth. split; [exact Hql|].
+    rewrite nth_set_nth_neq; [exact Hoq|]. intros ->. contradiction. }
+  simpl. lia.
+Qed.
+
+Fixpoint pos_at (c h j : nat) : nat := match j with O => h | S j' => nxt c (pos_at c h j') end.
+
+Lemma pos_at_spec c h : h < c -> forall j, j < c -> pos_at c h j < c /\ dist c h (pos_at c h j) = j.
+Proof.
+  intros Hh. induction j as [|j IH]; intros Hj; cbn [pos_at].
+  - split; [exact Hh|apply dist_refl].
+  - destruct (IH ltac:(lia)) as [Hlt Hd]. split; [apply nxt_lt; exact Hlt|].
+    rewrite dist_nxt by (auto; lia). lia.
+Qed.
+
+(* an entry that has travelled d steps sits behind d other entries *)
+Lemma psl_lt_count c v q : 1 <= c -> length v = c -> RHloc c v -> q < c ->
+  occupied (nth q v empty_slot) = true -> S (spsl (nth q v empty_slot)) <= length (pays v).
+Proof.
+  intros Hc Hlen HRH Hq Hoq.
+  destruct (HRH q Hq Hoq) as [Hd _]. set (h0 := home c (shash (nth q v empty_slot))) in *.
+  pose proof (home_lt c (shash (nth q v empty_slot)) Hc) as Hh0. fold h0 in Hh0.
+  pose proof (dist_lt c h0 q Hh0 Hq) as Hdq.
+  set (d := spsl (nth q v empty_slot)) in *.
+  set (ps := map (pos_at c h0) (seq 0 (S d))).
+  assert (Hps : length ps = S d) by (unfold ps; rewrite map_length, seq_length; reflexivity).
+  rewrite <- Hps. apply occupied_count.
+  - apply (NoDup_map_inv (dist c h0)). unfold ps. rewrite map_map.
+    rewrite (map_ext_in _ (fun j => j)); [rewrite map_id; apply seq_NoDup|].
+    intros j Hj. apply in_seq in Hj. apply pos_at_spec; auto; lia.
+  - intros p Hp. unfold ps in Hp. apply in_map_iff in Hp. destruct Hp as (j & <- & Hj).
+    apply in_seq in Hj. destruct (pos_at_spec c h0 Hh0 j ltac:(lia)) as [Hlt Hdj].
+    split; [lia|].
+    apply (path c v h0 q HRH Hh0 Hq Hoq Hd (d - j) (pos_at c h0 j) Hlt). lia.
+Qed.
+
+Lemma pays_set_nth_length v p s : p < length v -> occupied s = true ->
+  occupied (nth p v empty_slot) = true -> length (pays (set_nth v p s)) = length (pays v).
+Proof.
+  intros Hp Hs Ho. pose proof (pays_set_nth v p s Hp) as Hperm. apply Permutation_length in Hperm.
+  rewrite !app_length in Hperm.
+  assert (E1 : length (pays1 (nth p v empty_slot)) = 1).
+  { unfold occupied in Ho. unfold pays1. destruct (sid (nth p v empty_slot)); [reflexivity|discriminate]. }
+  assert (E2 : length (pays1 s) = 1).
+  { unfold occupied in Hs. unfold pays1. destruct (sid s); [reflexivity|discriminate]. }
+  lia.
+Qed.
+
+Lemma propagate_no_ovf c f : 1 <= c -> f < c ->
+  forall fuel v s p,
+  length v = c -> p < c -> RHloc c v -> occupied s = true -> slot_ok c v p s ->
+  occupied (nth f v empty_slot) = false -> length (pays v) <= psl_max ->
+  propagate fuel v c s p <> PslOverflow.
+Proof.
+  intros Hc Hf. induction fuel as [|n IH]; intros v s p Hlen Hp HRH Hs Hok Hfree Hcnt; [discriminate|].
+  cbn [propagate]. rewrite (mod_nxt c p Hp).
+  remember (nth p v empty_slot) as cur eqn:Ecur. destruct (occupied cur) eqn:Hocc; [|discriminate].
+  assert (Hpf : p <> f) by (intros ->; congruence).
+  assert (Hocc' : occupied (nth p v empty_slot) = true) by (rewrite <- Ecur; exact Hocc).
+  pose proof (psl_lt_count c v p Hc Hlen HRH Hp Hocc') as Hpc. rewrite <- Ecur in Hpc.
+  assert (Hnw : spsl cur + 2 <= c).
+  { rewrite Ecur. apply (free_bound_nowrap c v f HRH Hf Hfree p Hp Hocc'). }
+  assert (Hcd : spsl cur = dist c (home c (shash cur)) p).
+  { rewrite Ecur. apply (HRH p Hp Hocc'). }
+  destruct Hok as [Hsd Hsp].
+  pose proof (home_lt c (shash cur) Hc) as Hhc. pose proof (home_lt c (shash s) Hc) as Hhs.
+  destruct (Nat.ltb_spec (spsl cur) (spsl s)) as [Hlt|Hge].
+  - destruct (Nat.leb_spec psl_max (spsl cur)) as [Hov|_]; [lia|].
+    apply IH.
+    + rewrite length_set_nth; auto.
+    + apply nxt_lt; auto.
+    + apply RHloc_set_nth; auto; [split; auto|]. rewrite <- Ecur. lia.
+    + exact Hocc.
+    + split.
+      * cbn [bump spsl shash]. rewrite dist_nxt by (auto; lia). lia.
+      * right. rewrite prd_nxt by auto. rewrite nth_set_nth_eq by lia.
+        split; [exact Hs|]. cbn [bump spsl]. lia.
+    + rewrite nth_set_nth_neq by auto. exact Hfree.
+    + rewrite pays_set_nth_length; auto. lia.
+  - destruct (Nat.leb_spec psl_max (spsl s)) as [Hov|_]; [lia|].
+    apply IH; auto.
+    + apply nxt_lt; auto.
+    + split.
+      * cbn [bump spsl shash]. rewrite dist_nxt by (auto; lia). lia.
+      * right. rewrite prd_nxt by auto. rewrite <- Ecur.
+        split; [exact Hocc|]. cbn [bump spsl]. lia.
+Qed.
+
+Lemma res_map_ovf {A B} (g : A -> B) r : res_map g r = PslOverflow -> r = PslOverflow.
+Proof. destruct r; simpl; congruence. Qed.
+
+Lemma propagate_then_overwrite_no_ovf c v f pos new :
+  1 <= c -> length v = c -> RHloc c v -> f < c -> occupied (nth f v empty_slot) = false ->
+  pos < c -> occupied (nth pos v empty_slot) = true -> occupied new = true ->
+  slot_ok c v pos new -> spsl (nth pos v empty_slot) < spsl new ->
+  length (pays v) + 1 <= psl_max ->
+  propagate (S c) v c (nth pos v empty_slot) pos <> PslOverflow.
+Proof.
+  intros Hc Hlen HRH Hf Hfree Hpos Hocc Hnew Hok Hlt Hcnt.
+  pose proof (psl_lt_count c v pos Hc Hlen HRH Hpos Hocc) as Hpc.
+  remember (nth pos v empty_slot) as cur eqn:Ecur.
+  cbn [propagate]. rewrite (mod_nxt c pos Hpos). rewrite <- Ecur, Hocc, Nat.ltb_irrefl.
+  destruct (Nat.leb_spec psl_max (spsl cur)) as [Hov|_]; [lia|].
+  assert (Hpf : pos <> f) by (intros ->; congruence).
+  assert (Hnw : spsl cur + 2 <= c).
+  { rewrite Ecur. apply (free_bound_nowrap c v f HRH Hf Hfree pos Hpos). rewrite <- Ecur. exact Hocc. }
+  assert (Hcd : spsl cur = dist c (home c (shash cur)) pos).
+  { rewrite Ecur. apply (HRH pos Hpos). rewrite <- Ecur. exact Hocc. }
+  pose proof (home_lt c (shash cur) Hc) as Hhc.
+  set (v0 := set_nth v pos new).
+  assert (Hcomm : propagate c v0 c (bump cur) (nxt c pos)
+                  = res_map (fun w => set_nth w pos new) (propagate c v c (bump cur) (nxt c pos))).
+  { apply (propagate_comm c f pos new Hf Hpos); auto. { apply nxt_lt; auto. }
+    rewrite dist_nxt_self by auto.
+    pose proof (dist_lt c (nxt c pos) f (nxt_lt c pos Hpos) Hf).
+    assert (dist c (nxt c pos) f <> c - 1).
+    { intros E. rewrite <- (dist_nxt_self c pos Hpos) in E.
+      apply dist_inj in E; auto. apply nxt_lt; auto. }
+    lia. }
+  assert (Hno : propagate c v0 c (bump cur) (nxt c pos) <> PslOverflow).
+  { apply (propagate_no_ovf c f Hc Hf).
+    - unfold v0. rewrite length_set_nth; auto.
+    - apply nxt_lt; auto.
+    - unfold v0. apply RHloc_set_nth; auto. rewrite <- Ecur. lia.
+    - exact Hocc.
+    - split.
+      + cbn [bump spsl shash]. rewrite dist_nxt by (auto; lia). lia.
+      + right. rewrite prd_nxt by auto. unfold v0. rewrite nth_set_nth_eq by lia.
+        split; [exact Hnew|]. cbn [bump spsl]. lia.
+    - unfold v0. rewrite nth_set_nth_neq by auto. exact Hfree.
+    - unfold v0. rewrite pays_set_nth_length; auto; [lia|lia|rewrite <- Ecur; exact Hocc]. }
+  intros E. apply Hno. rewrite Hcomm, E. reflexivity.
+Qed.
+
+Lemma grow_fold_no_ovf c : 1 <= c -> forall l acc,
+  length acc = c -> RHloc c acc -> length (pays acc) + length (pays l) < c ->
+  length (pays acc) + length (pays l) <= psl_max ->
+  fold_left (grow_step true c) l (Ok acc) <> PslOverflow.
+Proof.
+  intros Hc. induction l as [|x l IH]; intros acc Hlen HRH Hcnt Hsmall; [discriminate|].
+  cbn [fold_left grow_step].
+  change (pays (x :: l)) with (pays1 x ++ pays l) in *. rewrite app_length in Hcnt, Hsmall.
+  destruct (occupied x) eqn:Hox.
+  - destruct (exists_free acc) as (f & Hf & Hfree); [lia|]. rewrite Hlen in Hf.
+    set (s0 := {| sid := sid x; shash := shash x; spsl := 0 |}).
+    assert (Hp1 : pays1 s0 = pays1 x) by reflexivity.
+    assert (E1 : length (pays1 x) = 1).
+    { unfold occupied in Hox. unfold pays1. destruct (sid x); [reflexivity|discriminate]. }
+    assert (Hok0 : slot_ok c acc (home c (shash x)) s0).
+    { split; [|left; reflexivity]. cbn [s0 spsl shash]. rewrite dist_refl. reflexivity. }
+    pose proof (home_lt c (shash x) Hc) as Hhx.
+    destruct (propagate_ok c f Hc Hf (S c) acc s0 (home c (shash x))) as [Hnf Hres]; auto.
+    { pose proof (dist_lt c (home c (shash x)) f Hhx Hf). lia. }
+    pose proof (propagate_no_ovf c f Hc Hf (S c) acc s0 (home c (shash x)) Hlen Hhx HRH Hox Hok0 Hfree ltac:(lia)) as Hno.
+    destruct (propagate (S c) acc c s0 (home c (shash x))) as [acc'| |] eqn:E; [|congruence|congruence].
+    destruct (Hres _ eq_refl) as (Hl & Hr & Hperm). rewrite Hp1 in Hperm.
+    pose proof (Permutation_length Hperm) as Hpl. rewrite app_length in Hpl.
+    apply IH; auto; lia.
+  - rewrite (pays1_occupied x Hox) in *. simpl in *. apply IH; auto.
+Qed.
+
+Section NoOverflow.
+Variable H : N -> N.
+
+Lemma TI_grow_no_ovf t : TI H t -> len t <= psl_max -> grow true t <> PslOverflow.
+Proof.
+  intros HTI Hsmall. pose proof (TI_pays_length H t HTI) as Hpl.
+  destruct HTI as (Hc & Hlen & HRH & Hperm & Hh & Hnd & Hl & Hlt).
+  unfold grow. pose proof (next_pow2_ge (cap t + 1)) as Hge.
+  set (c' := next_pow2 (cap t + 1)) in *.
+  pose proof (grow_fold_no_ovf c' ltac:(lia) (tbl t) (repeat empty_slot c')) as Hno.
+  rewrite pays_repeat_empty in Hno. simpl in Hno.
+  specialize (Hno (repeat_length _ _) (RHloc_empty c') ltac:(lia) ltac:(lia)).
+  destruct (fold_left (grow_step true c') (tbl t) (Ok (repeat empty_slot c'))); congruence.
+Qed.
+
+Lemma probe_absent_no_ovf t e f :
+  TI H t -> ~ In e (arena t) -> len t + 1 <= psl_max ->
+  f < cap t -> occupied (nth f (tbl t) empty_slot) = false ->
+  forall fuel pos k, pos < cap t ->
+    slot_ok (cap t) (tbl t) pos (new_slot (length (arena t)) (H e) k) ->
+    probe fuel t (H e) e false pos k <> PslOverflow.
+Proof.
+  intros HTI Hnin Hsmall Hf Hfree. pose proof (TI_pays_length H t HTI) as Hpl.
+  pose proof HTI as (Hc & Hlen & HRH & Hperm & Hh & Hnd & Hl & Hlt).
+  induction fuel as [|n IH]; intros pos k Hpos Hok; [discriminate|].
+  cbn [probe]. rewrite (mod_nxt _ pos Hpos).
+  remember (nth pos (tbl t) empty_slot) as cur eqn:Ecur.
+  destruct (sid cur) as [id'|] eqn:Hsid; [|discriminate].
+  assert (Hocc : occupied (nth pos (tbl t) empty_slot) = true) by (rewrite <- Ecur; unfold occupied; rewrite Hsid; reflexivity).
+  destruct (N.eqb (H e) (shash cur) && (false || N.eqb (nth id' (arena t) 0%N) e)); [discriminate|].
+  pose proof (psl_lt_count _ _ pos Hc Hlen HRH Hpos Hocc) as Hpc. rewrite <- Ecur in Hpc.
+  destruct (Nat.ltb_spec (spsl cur) k) as [Hlt'|Hge].
+  - pose proof (propagate_then_overwrite_no_ovf (cap t) (tbl t) f pos (new_slot (length (arena t)) (H e) k)
+                  Hc Hlen HRH Hf Hfree Hpos Hocc eq_refl Hok) as Hno.
+    rewrite <- Ecur in Hno. specialize (Hno Hlt' ltac:(lia)).
+    destruct (propagate (S (cap t)) (tbl t) (cap t) cur pos); congruence.
+  - destruct (Nat.leb_spec psl_max k) as [Hov|_]; [lia|].
+    assert (Hpf : pos <> f) by (intros ->; congruence).
+    pose proof (free_bound_nowrap _ _ f HRH Hf Hfree pos Hpos Hocc) as Hnw. rewrite <- Ecur in Hnw.
+    destruct Hok as [Hkd _]. cbn [new_slot spsl shash] in Hkd.
+    pose proof (home_lt (cap t) (H e) Hc) as Hhe.
+    apply IH; [apply nxt_lt; auto|]. split; cbn [new_slot spsl shash].
+    + rewrite dist_nxt by (auto; lia). lia.
+    + right. rewrite prd_nxt by auto. split; [exact Hocc|]. rewrite <- Ecur. lia.
+Qed.
+
+Lemma probe_present_no_ovf t i q :
+  TI H t -> i < length (arena t) -> q < cap t -> sid (nth q (tbl t) empty_slot) = Some i ->
+  len t <= psl_max ->
+  let e := nth i (arena t) 0%N in
+  forall n fuel pos, pos < cap t ->
+    dist (cap t) (home (cap t) (H e)) pos + n = dist (cap t) (home (cap t) (H e)) q ->
+    probe fuel t (H e) e false pos (dist (cap t) (home (cap t) (H e)) pos) <> PslOverflow.
+Proof.
+  intros HTI Hi Hq Hsq Hsmall e. pose proof (TI_pays_length H t HTI) as Hpl.
+  pose proof HTI as (Hc & Hlen & HRH & Hperm & Hh & Hnd & Hl & Hlt).
+  assert (Hoq : occupied (nth q (tbl t) empty_slot) = true) by (unfold occupied; rewrite Hsq; reflexivity).
+  assert (Hhq : shash (nth q (tbl t) empty_slot) = H e).
+  { apply Hh. apply In_pays. exists q. split; [lia|auto]. }
+  pose proof (home_lt (cap t) (H e) Hc) as Hhe.
+  assert (Hpq : spsl (nth q (tbl t) empty_slot) = dist (cap t) (home (cap t) (H e)) q).
+  { destruct (HRH q Hq Hoq) as [Hd _]. rewrite Hd, Hhq. reflexivity. }
+  pose proof (dist_lt _ _ q Hhe Hq) as Hdq.
+  induction n as [|n IH]; intros fuel pos Hpos Hd; (destruct fuel as [|fuel]; [discriminate|]).
+  - assert (pos = q) by (apply (dist_inj (cap t) (home (cap t) (H e))); auto; lia). subst pos.
+    cbn [probe]. rewrite Hsq, Hhq, N.eqb_refl. fold e. rewrite N.eqb_refl. discriminate.
+  - destruct (path _ _ _ q HRH Hhe Hq Hoq Hpq (S n) pos Hpos Hd) as [Hop Hge].
+    pose proof (psl_lt_count _ _ pos Hc Hlen HRH Hpos Hop) as Hpc.
+    cbn [probe]. rewrite (mod_nxt _ pos Hpos).
+    remember (nth pos (tbl t) empty_slot) as cur eqn:Ecur.
+    destruct (sid cur) as [id'|] eqn:Hsid; [|discriminate].
+    destruct (N.eqb (H e) (shash cur) && (false || N.eqb (nth id' (arena t) 0%N) e)); [discriminate|].
+    destruct (Nat.ltb_spec (spsl cur) (dist (cap t) (home (cap t) (H e)) pos)) as [Hlt'|_]; [lia|].
+    destruct (Nat.leb_spec psl_max (dist (cap t) (home (cap t) (H e)) pos)) as [Hov|_]; [lia|].
+    assert (Hdn : dist (cap t) (home (cap t) (H e)) (nxt (cap t) pos) = S (dist (cap t) (home (cap t) (H e)) pos))
+      by (apply dist_nxt; auto; lia).
+    rewrite <- Hdn. apply IH; [apply nxt_lt; auto|lia].
+Qed.
+
+Lemma goi_no_ovf t e : TI H t ->
+  (In e (arena t) -> len t <= psl_max) -> (~ In e (arena t) -> len t + 1 <= psl_max) ->
+  get_or_insert_by_hash true t (H e) e false <> PslOverflow.
+Proof.
+  intros HTI Hs1 Hs2. unfold get_or_insert_by_hash.
+  assert (Hsmall : len t <= psl_max).
+  { destruct (in_dec N.eq_dec e (arena t)) as [Hin|Hnin]; [auto|specialize (Hs2 Hnin); lia]. }
+  assert (Hpre : (if needs_grow t then grow true t else Ok t) <> PslOverflow /\
+                 forall t1, (if needs_grow t then grow true t else Ok t) = Ok t1 ->
+                   TI H t1 /\ S (len t1) < cap t1 /\ arena t1 = arena t /\ len t1 = len t).
+  { destruct (needs_grow t) eqn:Eg.
+    - split; [apply TI_grow_no_ovf; auto|]. intros t1 E.
+      destruct (TI_grow H t HTI) as [_ Hres].
+      destruct (Hres t1 E) as (HTI1 & Ha & Hl & Hh & Hc).
+      destruct HTI as (_ & _ & _ & _ & _ & _ & _ & Hlt).
+      split; [exact HTI1|]. split; [lia|]. split; assumption.
+    - split; [discriminate|]. intros t1 E. injection E as <-.
+      unfold needs_grow in Eg. apply Nat.ltb_ge in Eg.
+      split; [exact HTI|]. split; [|auto]. destruct HTI as (Hc & _).
+      unfold load_num, load_den in Eg. lia. }
+  destruct Hpre as [Hno1 Hres1].
+  destruct (if needs_grow t then grow true t else Ok t) as [t1| |]; [|congruence|discriminate].
+  destruct (Hres1 t1 eq_refl) as (HTI1 & Hload & Ha & Hlen1). rewrite <- Ha in Hs1, Hs2. rewrite <- Hlen1 in Hs1, Hs2.
+  pose proof HTI1 as (Hc & Hlen & HRH & Hperm & Hh & Hnd & Hl & Hlt).
+  pose proof (home_lt (cap t1) (H e) Hc) as Hhe.
+  destruct (in_dec N.eq_dec e (arena t1)) as [Hin|Hnin].
+  - destruct (In_nth _ _ 0%N Hin) as (i & Hi & Ee).
+    destruct (TI_stored H t1 i HTI1 Hi) as (q & Hq & Hsq & _).
+    pose proof (probe_present_no_ovf t1 i q HTI1 Hi Hq Hsq (Hs1 Hin)) as Hpp. cbv zeta in Hpp. rewrite Ee in Hpp.
+    specialize (Hpp (dist (cap t1) (home (cap t1) (H e)) q) (S (cap t1)) (home (cap t1) (H e))).
+    rewrite dist_refl in Hpp. apply Hpp; auto.
+  - destruct (TI_free H t1 HTI1) as (f & Hf & Hfree).
+    apply (probe_absent_no_ovf t1 e f HTI1 Hnin (Hs2 Hnin) Hf Hfree); auto.
+    split; [|left; reflexivity]. cbn [new_slot spsl shash]. rewrite dist_refl. reflexivity.
+Qed.
+
+Lemma nodup_length_ext (l1 l2 : list N) : (forall x, In x l1 <-> In x l2) ->
+  length (nodup N.eq_dec l1) = length (nodup N.eq_dec l2).
+Proof.
+  intros Hx. apply Permutation_length. apply NoDup_Permutation; try apply NoDup_nodup.
+  intros x. rewrite !nodup_In. apply Hx.
+Qed.
+
+Lemma run_no_ovf : forall es t, TI H t ->
+  length (nodup N.eq_dec (arena t ++ es)) <= psl_max -> run true H t es <> PslOverflow.
+Proof.
+  induction es as [|e r IH]; intros t HTI Hsmall; [discriminate|].
+  cbn [run]. destruct (goi_spec H t e HTI) as [Hnf1 Hres1].
+  pose proof HTI as (_ & _ & _ & _ & _ & Hnd & Hl & _).
+  assert (Hno1 : get_or_insert_by_hash true t (H e) e false <> PslOverflow).
+  { apply goi_no_ovf; auto.
+    - intros _. rewrite Hl. etransitivity; [|exact Hsmall].
+      apply NoDup_incl_length; [exact Hnd|]. intros x Hx. apply nodup_In. apply in_or_app. auto.
+    - intros Hnin. rewrite Hl. etransitivity; [|exact Hsmall].
+      replace (length (arena t) + 1) with (length (e :: arena t)) by (simpl; lia).
+      apply NoDup_incl_length; [constructor; assumption|].
+      intros x [<-|Hx]; apply nodup_In; apply in_or_app; [right; left; reflexivity|auto]. }
+  destruct (get_or_insert_by_hash true t (H e) e false) as [[id t1]| |]; [|congruence|congruence].
+  destruct (Hres1 id t1 eq_refl) as (HTI1 & Hid & Hnth & Hcase).
+  assert (Hno2 : run true H t1 r <> PslOverflow).
+  { apply IH; [exact HTI1|]. rewrite (nodup_length_ext _ (arena t ++ e :: r)); [exact Hsmall|].
+    intros x. rewrite !in_app_iff. cbn [In].
+    destruct Hcase as [(Hine & Ha & _)|(Hnine & Ha & _)]; rewrite Ha.
+    - split; [tauto|]. intros [Hx|[<-|Hx]]; auto.
+    - rewrite in_app_iff. cbn [In]. tauto. }
+  destruct (run true H t1 r) as [[ids2 t2]| |]; congruence.
+Qed.
+
+End NoOverflow.
+
+(* below 256 distinct elements the guard is vacuous: every call returns *)
+Theorem rh_total_small : forall (H : N -> N) (c : nat) (es : list N),
+  1 <= c -> length (nodup N.eq_dec es) <= psl_max ->
+  exists ids t', run true H (new_table c) es = Ok (ids, t').
+Proof.
+  intros H c es Hc Hsmall.
+  pose proof (run_no_ovf H es (new_table c) (TI_new H c Hc) Hsmall) as Hno.
+  pose proof (rh_never_out_of_fuel H c es Hc) as Hnf.
+  destruct (run true H (new_table c) es) as [[ids t']| |]; [eauto|congruence|congruence].
+Qed.
